@@ -57,6 +57,9 @@ FunctionRemap(const InterrogateType &itype, const InterrogateFunction &ifunc,
   _args_type = 0;
   _wrapper_index = 0;
 
+  static int next_sequence = 0;
+  _sequence = next_sequence++;
+
   _return_value_needs_management = false;
   _return_value_destructor = 0;
   _manage_reference_count = false;
